@@ -56,6 +56,9 @@ static STAMP: AtomicU64 = AtomicU64::new(0);
 static RDV_WAITING: AtomicU64 = AtomicU64::new(0);
 static RDV_GEN: AtomicU64 = AtomicU64::new(0);
 static RDV_MET: AtomicU64 = AtomicU64::new(0);
+/// long stall: at delay level 3 the first decoded chunk of a case is held back for 650 ms before it is published
+static STALL: AtomicU64 = AtomicU64::new(0);
+static STALLS_DONE: AtomicU64 = AtomicU64::new(0);
 thread_local! { static FRESH: std::cell::Cell<bool> = const { std::cell::Cell::new(false) }; }
 
 fn mon() -> &'static Mutex<MonState> {
@@ -249,6 +252,15 @@ fn hook(ev: &Event) {
         }
         _ => {}
     }
+    if let Event::ChunkWritten { .. } = ev {
+        // a decoder that goes quiet for longer than any plausible time-out while readers wait for its first bytes:
+        // they must simply keep waiting (no schedule may turn a slow decoder into an error or foreign bytes)
+        if STALL.swap(0, Ordering::AcqRel) == 1 {
+            std::thread::sleep(std::time::Duration::from_millis(650));
+            STALLS_DONE.fetch_add(1, Ordering::Relaxed);
+            return;
+        }
+    }
     let tid = thread_tag();
     let h = mix(DELAY_SEED.load(Ordering::Relaxed) ^ mix(stamp) ^ tid);
     let p = h % 1000;
@@ -291,6 +303,7 @@ fn monitor_reset(delay_seed: u64, level: u64) {
     st.max_active_decodes = 0;
     DELAY_SEED.store(delay_seed, Ordering::Relaxed);
     DELAY_LEVEL.store(level, Ordering::Relaxed);
+    STALL.store((level == 3) as u64, Ordering::Release);
     HOOK_ON.store(true, Ordering::Relaxed);
 }
 
@@ -314,6 +327,8 @@ fn monitor_collect(out: &mut CaseOut) {
     }
     out.obs.max("simultaneous_decodes", st.max_active_decodes.max(0) as u64);
     out.obs.add("first_accesses_entered_together(rendezvous)", RDV_MET.swap(0, Ordering::Relaxed));
+    out.obs.add("decoder_stalls_of_650ms_injected", STALLS_DONE.swap(0, Ordering::Relaxed));
+    STALL.store(0, Ordering::Release);
     let redecoded = st.cluster_miss.values().filter(|c| **c > 1).count();
     out.obs.add("clusters_parsed_more_than_once(evicted)", redecoded as u64);
     for (k, w) in st.violations.clone() {
